@@ -493,6 +493,12 @@ def _check_free_weight_positive(ctx, F, b, role_name):
         return fp is not None and cs and all(reaches(c) for c in cs)
     if bad and (output_validated(F, b) or callers_validated()):
         return ctx.ok('R6', role, b.defpath, 'the quantised table passes the fixed-point validator (total exactly 2^PRECISION, no zero entry), which refuses an over-long table', key=key)
+    if bad and bad[0] == 'unresolved':
+        fp = anchors.validators(F).get('fixed_point')
+        cs = [c for c in F.bodies if c.promoted is None and not is_test(c) and any((callee(t) or {}).get('def') == b.defpath for _, t in c.calls())]
+        loose = [c for c in cs if fp is None or not any((callee(t) or {}).get('def') == fp.defpath or ((F.by_def.get((callee(t) or {}).get('def')) is not None) and any((callee(t2) or {}).get('def') == fp.defpath for y in closure_closure(F, F.by_def[(callee(t) or {}).get('def')]) for _, t2 in y.calls())) for x in closure_closure(F, c) for _, t in x.calls())]
+        if loose:
+            return ctx.bad('R6', role, b.defpath, 'this quantiser bounds the table only by the largest value of the probability type, not by 2^PRECISION, and relies on the fixed-point validator behind it to refuse an over-long table; %s uses its result without that validation, so a table with more than 2^PRECISION entries yields a wrapped, non-monotonic cdf' % loose[0].defpath.rsplit('::', 1)[-1], key=key, loc=rules.loc(loose[0]))
     if bad and bad[0] == 'bad':
         ctx.bad('R6', role, b.defpath, bad[1], key=key, loc=rules.loc(b))
     elif bad:
